@@ -245,3 +245,95 @@ def converges(ctx):
     if name in ("3x3", "5x5") and not fixed:
         n = 3 if name == "3x3" else 5
         ctx.prove("regular-boundary-yields-the-regular-lattice", bool(np.allclose(after, np.array(pts), atol=1e-6)))
+
+
+# ------------------------------------------------------------------------------ smoothers over the life of a model
+@proof("C15", "bounded/smoother-life-cycle", cases=["mesh-smoother-reused-after-backport", "sketch-copied-and-moved", "sketch-transformed-after-a-look",
+                                                    "half-spline-disk", "spline-disk", "oval"], level="B", samples=3,
+       functions=[SM + "MeshSmoother.__init__", SM + "MeshSmoother.backport", SM + "SketchSmoother.backport",
+                  "classy_blocks.construct.flat.sketches.mapped:MappedSketch.positions", "classy_blocks.construct.flat.face:Face.update"],
+       note="bounded stand-in: a mesh smoother used again after the mesh was re-assembled; a sketch whose positions were looked at and "
+            "that was then copied / transformed; sketch classes whose grid order differs from their face order - in each case boundary "
+            "points stay, free points end at the average of their edge-connected points, and every face sharing a point gets the same position")
+def life_cycle(ctx):
+    rng = ctx.rng
+    name = ctx.case
+
+    def face_positions(sketch):
+        """positions by index, read from the faces themselves (where the geometry lives)"""
+        out = {}
+        for q, f_ in zip(sketch.indexes, sketch.faces):
+            for corner, i in enumerate(q):
+                out.setdefault(int(i), np.asarray(f_.points[corner].position, dtype=float).copy())
+        return np.array([out[i] for i in range(len(out))])
+
+    def check_sketch(sketch, where):
+        """after smoothing: boundary exactly in place, interior at the average, faces consistent with positions"""
+        quads = [list(q) for q in sketch.indexes]
+        before = face_positions(sketch)
+        boundary, nbrs = spec_quad_graph(quads, len(before))
+        SketchSmoother(sketch).smooth(200)
+        after = face_positions(sketch)
+        ctx.prove("positions-property-agrees-with-the-faces", bool(np.allclose(np.array(sketch.positions, dtype=float), after, atol=1e-12 * (np.abs(after).max() + 1))), where=where)
+        scale = np.abs(before).max() + 1
+        for i in range(len(before)):
+            if i in boundary:
+                ctx.prove("boundary-points-stay", bool(np.allclose(after[i], before[i], atol=1e-12 * scale)), where=where, point=i)
+            else:
+                avg = np.mean([after[n] for n in nbrs[i]], axis=0)
+                ctx.prove("free-point-at-the-neighbour-average", float(np.linalg.norm(after[i] - avg)) < 1e-6 * scale, where=where, point=i)
+        for f_, q in zip(sketch.faces, quads):
+            ctx.prove("every-face-holds-the-positions-of-its-own-points", bool(np.allclose(np.asarray(f_.point_array, dtype=float), after[q], atol=1e-9 * scale)), where=where)
+
+    if name == "mesh-smoother-reused-after-backport":
+        pts, cells = HEX_TOPOS["3x3x3"]
+        boundary, nbrs = spec_hex_graph(cells, len(pts))
+        P = np.array(pts, dtype=float)
+        for i in range(len(pts)):
+            if i not in boundary:
+                P[i] += [rng.uniform(-0.25, 0.25) for _ in range(3)]
+        mesh = Mesh()
+        for c in cells:
+            mesh.add(cb.Loft(cb.Face([P[i] for i in c[:4]]), cb.Face([P[i] for i in c[4:]])))
+        mesh.assemble(skip_edges=True)
+        sm = MeshSmoother(mesh)
+        sm.smooth(1)
+        mesh.backport()          # re-assembles: the mesh has new vertex objects now
+        sm.smooth(200)
+        pos = np.array([np.asarray(v.position, dtype=float) for v in mesh.vertices])
+        # identify vertices through the operations' corner numbering instead of positions
+        index_of = {}
+        for b, c in zip(mesh.blocks, cells):
+            for corner, l in enumerate(c):
+                index_of[l] = b.vertices[corner].index
+        for l in range(len(pts)):
+            if l in boundary:
+                ctx.prove("boundary-points-stay", bool(np.allclose(pos[index_of[l]], np.array(pts[l], dtype=float), atol=1e-12)), point=l)
+            else:
+                avg = np.mean([pos[index_of[n]] for n in nbrs[l]], axis=0)
+                ctx.prove("free-point-at-the-neighbour-average", float(np.linalg.norm(pos[index_of[l]] - avg)) < 1e-6, point=l)
+        return
+    if name in ("sketch-copied-and-moved", "sketch-transformed-after-a-look"):
+        pts, quads = QUAD_TOPOS["4x3"]
+        boundary, _ = spec_quad_graph(quads, len(pts))
+        P = np.array(pts, dtype=float)
+        for i in range(len(pts)):
+            if i not in boundary:
+                P[i, :2] += [rng.uniform(-0.3, 0.3), rng.uniform(-0.3, 0.3)]
+        base = cb.MappedSketch(P, [list(q) for q in quads])
+        _ = base.positions      # somebody looks at the positions first
+        if name == "sketch-copied-and-moved":
+            SketchSmoother(base).smooth(3)
+            other = base.copy().translate([0.0, 0.0, 2.5]).rotate(0.4, [0.0, 0.0, 1.0], [0.0, 0.0, 0.0])
+            check_sketch(other, "the moved copy")
+        else:
+            base.translate([3.0, -1.0, 0.5])
+            check_sketch(base, "the translated sketch")
+        return
+    c = np.array([rng.uniform(-2, 2) for _ in range(3)])
+    if name == "oval":
+        sketch = cb.Oval(c, c + np.array([1.5, 0.0, 0.0]), [0.0, 0.0, 1.0], 0.7)
+    else:
+        cls = cb.HalfSplineDisk if name == "half-spline-disk" else cb.SplineDisk
+        sketch = cls(c, c + np.array([1.5, 0.0, 0.0]), c + np.array([0.0, 1.0, 0.0]), 0.3, 0.2)
+    check_sketch(sketch, name)
